@@ -45,15 +45,17 @@ def bignum_encoders(pid):
         return {"undecided": [f"bounded stand-in: the real crate does not build: {err}"], "failures": []}
     rnd = random.Random(int(os.environ.get("VERIF_SEED", "0") or 0))
     nats, ints = set(), set()
-    for k in range(0, 201):
+    scale = int(os.environ.get("VERIF_STANDIN_SCALE", "1"))
+    kmax = 200 * (5 if scale > 1 else 1)
+    for k in range(0, kmax + 1):
         for d in (-2, -1, 0, 1, 2):
             v = (1 << k) + d
             if v >= 0:
                 nats.add(v)
             ints.add(v)
             ints.add(-(1 << k) + d)
-    for _ in range(400):
-        v = rnd.getrandbits(rnd.randrange(1, 201))
+    for _ in range(400 * scale):
+        v = rnd.getrandbits(rnd.randrange(1, kmax + 1))
         nats.add(v)
         ints.add(v if rnd.random() < 0.5 else -v)
     cmds = [f"en {v}" for v in sorted(nats)] + [f"ei {v}" for v in sorted(ints)]
@@ -80,7 +82,7 @@ def bignum_encoders(pid):
         "backends": ["BOUNDED stand-in (concrete enumeration on the real crate; not a proof)"],
         "samples": [],
         "bounded_standins": [{"functions": ["number.rs Nat::encode", "number.rs Int::encode"],
-                              "bound": "n = +-2^k + d, k <= 200, d in -2..2, plus 400 seeded pseudo-random values < 2^200",
+                              "bound": f"n = +-2^k + d, k <= {kmax}, d in -2..2, plus {400 * scale} seeded pseudo-random values < 2^{kmax}",
                               "vectors": len(cmds), "disagreements": len(failures), "labelled": "bounded, NOT proved",
                               "wall_s": round(time.time() - t0, 1)}],
     }
@@ -108,7 +110,7 @@ def principal_text(pid):
     blobs = [b""] + [bytes([i]) for i in range(256)]
     blobs += [bytes([a, b]) for a in range(0, 256, 5) for b in range(0, 256, 7)]
     for n in range(2, 30):
-        for _ in range(12):
+        for _ in range(12 * int(os.environ.get("VERIF_STANDIN_SCALE", "1"))):
             blobs.append(bytes(rnd.getrandbits(8) for _ in range(n)))
     cmds, exps = [], []
     for b in blobs:
